@@ -398,7 +398,7 @@ def shrink(pid, plan, sig, budget=400, wall=240):
     while changed and used[0] < budget and _wall() - t0 < wall:
         changed = False
         # 1. drop chunks of steps
-        steps = best.get("steps", [])
+        steps = best.get("steps") or []
         n = 2
         while len(steps) >= 1 and n <= max(2, len(steps)) and used[0] < budget:
             size = max(1, len(steps) // n)
